@@ -72,18 +72,14 @@ Definition ncell_leaf (nobj k i : N) (all : list cell) (c : cell) : cell :=
       then CNull else COpq g
     else if (k =? K_OBJ) && (i =? P_OBJ_CHILDREN) then CNull
     else if (k =? K_MEMATTRS) && (i mod MEMATTR_STRIDE =? 4) then CNull     (* nr_targets == 0: nimattr->targets = NULL (fix 4d6acad) *)
-    else COpq g             (* obj.userdata, callbacks; and, as the code stands, the page_types / initiators pointers of empty arrays *)
+    else if (k =? K_TARGETS) && (i mod TARGET_STRIDE =? 6) then CNull        (* nr_initiators == 0: nimtg->initiators = NULL (fix daa8755) *)
+    else COpq g             (* obj.userdata, callbacks; and, as the code stands, the page_types pointer of a NUMA node with page_types_len == 0 *)
   | CLink id =>
     if k =? K_DOBJS then CNull
     else if (k =? K_TARGETS) && (i mod TARGET_STRIDE =? 0) then CNull
     else if (k =? K_INITIATORS) && (i mod INITIATOR_STRIDE =? 1) then CNull
     else CLink id
-  | CNull =>
-    (* hwloc_internal_memattrs_dup on a topology loaded with NO_MEMATTRS: malloc(0 * sizeof) *)
-    if (k =? K_TOPO) && (i =? P_MEMATTRS) then CZ else CNull
-  | CZ =>
-    if (k =? K_TOPO) && (i =? P_MEMATTRS) then CZ else CZ
-  | other => other
+  | other => other      (* CNull stays NULL: memattrs of a NO_MEMATTRS topology since fix daa8755 (no malloc(0)) *)
   end.
 
 Fixpoint norm (nobj : N) (t : tree) : tree :=
